@@ -328,7 +328,11 @@ def versions_shard(desc):
         n = len(vals)
         data = pd.DataFrame({"p_id": np.arange(n), "hh_id": np.arange(n), "zz_u": np.asarray(vals, dtype=float)})
         try:
-            res = env.simulate(data, env=(params, [functions, {rule: make_probe(g)}]), targets=[rule], rounding=True)
+            # two calls with one private params object: the statutory rounding of the second call must be
+            # the same (a spec consumed or altered by the first call would show here)
+            pp = copy.deepcopy(params)
+            res = env.simulate(data, env=(pp, [functions, {rule: make_probe(g)}]), targets=[rule], rounding=True)
+            res_again = env.simulate(data, env=(pp, [functions, {rule: make_probe(g)}]), targets=[rule], rounding=True)
         except Exception as e:  # noqa: BLE001
             key = f"spec-version-raises:{rule}"
             if key in known:
@@ -338,9 +342,11 @@ def versions_shard(desc):
                                                 {"date": iso, "kind": "V", "group": g, "rule": rule, "values": vals}))
             continue
         sh.evaluations += 1
-        for u, v in zip(vals, res[rule].tolist()):
+        for u, v, call in [(u_, v_, 1) for u_, v_ in zip(vals, res[rule].tolist())] + [(u_, v_, 2) for u_, v_ in zip(vals, res_again[rule].tolist())]:
             msg, cls = relation(u, v, spec)
             sh.nontrivial.add(f"{iso}|V|{rule}|{cls}|{u!r}")
+            if msg and call == 2:
+                msg += " (second call with the same params object)"
             if msg:
                 key = f"rounding:{rule}"
                 if key in known:
